@@ -197,9 +197,9 @@ def body(fx, rep, m, g, f, rule, ownv, rel_key, rel_fn, assign):
                 # arguments: every parameter of the release function is a member of this guard (entry value)
                 for a in e['args']:
                     base = a
-                    while isinstance(base, tuple) and base[0] == 'ext':
+                    while isinstance(base, tuple) and base and base[0] in ('ext', 'lv', 'deref', 'addr'):
                         base = base[1]
-                    if not (isinstance(base, tuple) and base[0] == 's' and base[1].startswith('this->')):
+                    if not (isinstance(base, tuple) and base[0] == 's' and base[1].lstrip('*&').startswith('this->')):
                         good, why = False, 'release argument %s is not a member of the guard at entry' % show(a)
                 if assign:
                     # release precedes the overwriting of the members
